@@ -22,24 +22,37 @@ Theorem C20_run_completes : forall s k ca cb,
 Proof. exact run_completes. Qed.
 Print Assumptions C20_run_completes.
 
-(* (b) the instrumented run records an event for exactly the mounts that [tr_stacked] flags ... *)
+(* (b) the instrumented run ([run_events], Proofs/ConcP.v) carries per process the table as it
+   last read it ([se_seen]; None = not read yet) and the mount(2) calls (who, target) made by
+   either process since that read ([se_since]); it records an event for exactly the mounts that
+   [tr_stacked] flags ... *)
 Theorem C20_stack_events_faithful : forall s k ca cb,
   tr_stacked (run_trace (run_sched s k ca cb)) = negb (match run_events s k ca cb with [] => true | _ => false end).
 Proof. exact run_events_stacked. Qed.
 Print Assumptions C20_stack_events_faithful.
 
 (* ... and in every run (any schedule, any two codes, any initial table) a mount(2) that lands
-   on a mounted mountpoint was decided on a table read that did not show it *)
+   on a mounted mountpoint was decided on a table read that did not show it, and a mount(2) of
+   that mountpoint has been made after that read *)
 Theorem C20_stack_only_if_stale : forall s k ca cb e, In e (run_events s k ca cb) ->
   mem_path (se_target e) (se_table e) = true /\
-  forall kr, se_seen e = Some kr -> mem_path (se_target e) kr = false.
+  forall kr, se_seen e = Some kr ->
+    mem_path (se_target e) kr = false /\ exists w, In (w, se_target e) (se_since e).
 Proof. exact stack_only_if_stale. Qed.
 Print Assumptions C20_stack_only_if_stale.
 
+(* when no code names a mount target twice, that mount was made by the OTHER process *)
+Theorem C20_stack_only_if_stale_other : forall s k ca cb e,
+  NoDup (targets ca) -> NoDup (targets cb) -> In e (run_events s k ca cb) ->
+  forall kr, se_seen e = Some kr ->
+    mem_path (se_target e) (se_table e) = true /\ mem_path (se_target e) kr = false /\
+    In (negb (se_first e), se_target e) (se_since e).
+Proof. exact stack_only_if_stale_other. Qed.
+Print Assumptions C20_stack_only_if_stale_other.
+
 (* when both codes start by reading the table, there always is such a last read *)
 Theorem C20_stack_only_if_stale_read : forall s k ca cb e,
-  In e (run_events s k (IProbe :: ca) (IProbe :: cb)) ->
-  exists kr, se_seen e = Some kr /\ mem_path (se_target e) kr = false /\ mem_path (se_target e) (se_table e) = true.
+  In e (run_events s k (IProbe :: ca) (IProbe :: cb)) -> exists kr, se_seen e = Some kr.
 Proof. exact stack_only_if_stale_read. Qed.
 Print Assumptions C20_stack_only_if_stale_read.
 
